@@ -275,6 +275,36 @@ theorem runOps_inv (hg : Gen.simFinalizeGuarded = true) (hs : Gen.simFinalizeSet
           have := ih s s' hr (by simpa [runOps, step] using h)
           simpa [rawWrites, countFinalize, count] using this
 
+/-! ### Rates computed in `finalize` from already scaled series -/
+
+theorem rate_entry_scale (u d a k : Rat) (hk : 0 < k) :
+    (if 0 < a * k then some (d * k / (a * k) / u) else none) = (if 0 < a then some (d / a / u) else none) := by
+  have hkne : k ≠ 0 := by intro h; rw [h] at hk; exact Rat.lt_irrefl hk
+  by_cases ha : 0 < a
+  · have : 0 < a * k := Rat.mul_pos ha hk
+    have hane : a ≠ 0 := by intro h; rw [h] at ha; exact Rat.lt_irrefl ha
+    simp only [this, ha, ↓reduceIte]
+    congr 2
+    grind
+  · have : ¬ 0 < a * k := by
+      intro h
+      exact ha ((Rat.mul_pos_iff_of_pos_right hk).mp h)
+    simp [this, ha]
+
+theorem rateSeries_scale (u k : Rat) (hk : 0 < k) : ∀ (new alive : List Rat),
+    rateSeries u (new.map (· * k)) (alive.map (· * k)) = rateSeries u new alive := by
+  intro new
+  induction new with
+  | nil => intro alive; simp [rateSeries]
+  | cons d ds ih =>
+      intro alive
+      cases alive with
+      | nil => simp [rateSeries]
+      | cons a as =>
+          have := ih as
+          simp only [rateSeries] at this ⊢
+          simp only [List.map_cons, List.zip_cons_cons, this, rate_entry_scale u d a k hk]
+
 /-! ### Prevalence -/
 
 theorem count_le_of_imp {α} (p q : α → Bool) (l : List α) (h : ∀ a ∈ l, p a = true → q a = true) :
